@@ -151,7 +151,7 @@ func outcomeString(ops []string, rs []result, final string) string {
 
 func newConcBackend(be string, sp Space) (*oneBackend, error) {
 	if be == "kv" {
-		b, err := newKVBackend(false) // raw bbolt: real kvdb.Batch
+		b, err := newKVBackend(false, sp.KV) // raw bbolt: real kvdb.Batch
 		if err != nil {
 			return nil, err
 		}
@@ -275,7 +275,7 @@ func checkConc(be string, sp Space, hist, ops []string, cs *concStats) (bad stri
 func TestC16Conc(t *testing.T) {
 	run := evid.Start("C16", "model_checking")
 	if rp := os.Getenv("VERIF_REPLAY"); rp != "" {
-		os.Exit(replayFile(run, rp, true))
+		os.Exit(replayFile(run, rp, true, false))
 	}
 	budget := 45 * time.Second
 	if run.Thorough() {
